@@ -333,12 +333,12 @@ class FileIndex(object):
         # No data available. Skip time indexing (argmax will fail on an empty vector).
         if len(self._data) == 0:
             return FileIndex(data=np.copy(self._data), t0=self.t0)
-        # No time bounds specified. Return the complete dataset.
-        elif start is None and stop is None:
+        # No time bounds specified and nan elements are to be kept. Return the complete dataset.
+        elif start is None and stop is None and hint == 'include_nans':
             return FileIndex(data=np.copy(self._data), t0=self.t0)
         # If there's no P1 timestamps in the index file whatsoever, t0 will be None. In that case, we cannot apply time
         # bounds to the data, since they are based on P1 time. This should be extremely rare.
-        elif self.t0 is None:
+        elif self.t0 is None and (start is not None or stop is not None):
             raise IndexError(f'No P1 timestamps present in index. Cannot apply time bounds. '
                              f'[start={start}, stop={stop}]')
         else:
@@ -421,7 +421,8 @@ class FileIndex(object):
         # example:
         #   my_index[10:12:'remove_nans']
         elif isinstance(key, slice) and (isinstance(key.start, (Timestamp, float)) or
-                                         isinstance(key.stop, (Timestamp, float))):
+                                         isinstance(key.stop, (Timestamp, float)) or
+                                         isinstance(key.step, str)):
             hint = key.step
             if hint is not None and not isinstance(hint, str):
                 raise ValueError('Step size not supported for time range slicing.')
